@@ -135,3 +135,60 @@ package bill
 //@   requires inv != nil
 //@   modifies *
 //@   ensures err == nil ==> inv.Totals != nil
+//
+// ---- C16: correcting and replicating an invoice
+//
+// A replica keeps the business content: only the identifier, the code and the three dates
+// are written (the frame is proved), and they get the documented values.
+//@ spec today() cal.Date = uninterpreted
+//@ func (inv *Invoice) Replicate() (err)
+//@   requires inv != nil
+//@   modifies Invoice.Identify, Invoice.Code, Invoice.IssueDate, Invoice.ValueDate, Invoice.OperationDate
+//@   footprint inv
+//@   ensures [replica] err == nil && inv.Identify.UUID == "" && inv.Code == "" && inv.ValueDate == nil && inv.OperationDate == nil
+//
+// options are applied by caller-supplied functions and a JSON decoder: assumed to write only
+// the options object they are given (A-OPTIONS); success means a correction type was given
+//@ func prepareCorrectionOptions(o, opts) (err)
+//@   trusted A-OPTIONS: correction option functions and json.Unmarshal write only the options object
+//@   requires o != nil
+//@   modifies CorrectionOptions.Type, CorrectionOptions.IssueDate, CorrectionOptions.Series, CorrectionOptions.Stamps, CorrectionOptions.Reason, CorrectionOptions.Ext, CorrectionOptions.CopyTax, CorrectionOptions.CorrectionOptions, CorrectionOptions.data, elem(*head.Stamp)
+//@   footprint o
+//@   ensures err == nil ==> o.Type != ""
+//
+// regime and addon lookups only read the registries; the definition handed back is the
+// caller's own working copy (fresh) or nil
+//@ func (inv *Invoice) correctionDef() (cd)
+//@   trusted A-REGISTRY: RegimeDef / AddonDefs are read-only registry lookups; CorrectionDefinition.Merge (proved) never writes its argument
+//@   ensures cd == nil || fresh(cd)
+//
+// the correction is refused unless the type is allowed, a required reason is given and every
+// required stamp is supplied; the stamps found are attached to the reference
+//@ pred stampFor(k cbc.Key, l []*head.Stamp) bool = exists j int :: 0 <= j && j < len(l) && l[j] != nil && l[j].Provider == k
+//@ func (inv *Invoice) validatePrecedingData(o, cd, pre) (err)
+//@   requires o != nil && pre != nil
+//@   requires len(pre.Stamps) == 0 && cap(pre.Stamps) == 0
+//@   modifies org.DocumentRef.Stamps, elem(*head.Stamp)
+//@   footprint pre, pre.Stamps
+//@   ensures [refused] err == nil && cd != nil ==> (len(cd.Types) > 0 ==> cbc.keyAmong(o.Type, cd.Types)) && (cd.ReasonRequired ==> pre.Reason != "")
+//@   ensures [stamps] err == nil && cd != nil ==> (forall i int :: 0 <= i && i < len(cd.Stamps) ==> stampFor(cd.Stamps[i], pre.Stamps))
+//@   ensures [supplied] forall j int :: 0 <= j && j < len(pre.Stamps) ==> (exists k int :: 0 <= k && k < len(o.Stamps) && o.Stamps[k] == pre.Stamps[j])
+//@   ensures [nostamps] cd == nil ==> err == nil && len(pre.Stamps) == 0
+//@   loop 1 invariant pre.Reason == old(pre.Reason)
+//@   loop 1 invariant forall i int :: 0 <= i && i < idx ==> stampFor(cd.Stamps[i], pre.Stamps)
+//@   loop 1 invariant forall j int :: 0 <= j && j < len(pre.Stamps) ==> pre.Stamps[j] != nil && (exists k int :: 0 <= k && k < len(o.Stamps) && o.Stamps[k] == pre.Stamps[j])
+//@   loop 1 invariant (len(pre.Stamps) == 0 && cap(pre.Stamps) == 0) || fresh(pre.Stamps)
+//@   loop 2 invariant forall j int :: 0 <= j && j < idx ==> o.Stamps[j] == nil || o.Stamps[j].Provider != cd.Stamps[idx1]
+//
+// at the moment the corrected document is recalculated it has no identifier and no code, the
+// requested type, and exactly one preceding reference, which carries the source's identifier,
+// type, series, code and issue date, the reason and extensions given, and the required stamps
+//@ func (inv *Invoice) Correct(opts) (err)
+//@   requires inv != nil
+//@   requires inv.Totals != nil && inv.Totals.Taxes != nil ==> tax.wfTotal(inv.Totals.Taxes)
+//@   modifies *
+//@   use Total).Clone shape
+//@   at-call Invoice).Calculate assert [unlinked] inv.Identify.UUID == "" && inv.Code == "" && inv.Type == o.Type && o.Type != ""
+//@   at-call Invoice).Calculate assert [linked] len(inv.Preceding) == 1 && inv.Preceding[0] != nil && fresh(inv.Preceding[0]) && inv.Preceding[0].Identify.UUID == old(inv.Identify.UUID) && inv.Preceding[0].Type == old(inv.Type) && inv.Preceding[0].Series == old(inv.Series) && inv.Preceding[0].Code == old(inv.Code) && old(inv.Code) != ""
+//@   at-call Invoice).Calculate assert [date] inv.Preceding[0].IssueDate != nil && *inv.Preceding[0].IssueDate == old(inv.IssueDate) && inv.Preceding[0].Reason == o.Reason && inv.Preceding[0].Ext == o.Ext
+//@   at-call Invoice).Calculate assert [required] cd != nil ==> (len(cd.Types) > 0 ==> cbc.keyAmong(inv.Type, cd.Types)) && (cd.ReasonRequired ==> inv.Preceding[0].Reason != "") && (forall i int :: 0 <= i && i < len(cd.Stamps) ==> stampFor(cd.Stamps[i], inv.Preceding[0].Stamps))
